@@ -37,8 +37,11 @@ hints_by_round={
  9:["Look for a slip of sharing versus copying: a slice, map or pointer that caller and callee (or two goroutines, or two duties, or a cache and its reader) now share where each used to have its own, a result handed out that aliases internal state, an `append` onto a backing array somebody else still reads, a sort, filter or compaction done in place on an input, a loop variable or accumulator reused across iterations without being reset.",
     "Look for a helper, method or constant that has MORE THAN ONE caller or use (chain-time conversions, account lookups, duty constructors and accessors, the relay/REST client helpers, configuration getters in `util`, shared metrics or logging helpers): adjust it for the benefit of one caller in a way that quietly breaks another caller on which the property depends.",
     "Look for a slip in selection and matching: choosing among several candidates (nodes, relays, bids, accounts, wallets, configuration entries, committees, keys of a map) by the wrong key, the wrong comparison (prefix instead of whole, case, `<` instead of `<=` on a tie, first instead of last), an early `break` that stops at the first match where all were needed, iteration over a map where order matters, or a de-duplication that merges entries that differ."],
+ 10:["Look for a slip around numeric settings and thresholds: a zero, negative or very large value of a timeout, delay, grace, threshold, process-concurrency, gas limit, boost factor or count that takes a different path (division by it, a `<= 0` guard, a default substituted for an explicit zero, a duration compared in the wrong unit, an unsigned subtraction that wraps).",
+    "Look for a slip in a `switch` over versions or kinds (spec.DataVersion from phase0 to deneb and beyond, blinded versus unblinded, account kinds, client types, relay entry kinds): a case that falls into the wrong branch, a missing case that now takes the default, a nil check on the wrong member of a versioned struct.",
+    "Look for a slip in clean-up and bookkeeping that only matters later: an entry that is not removed (or is removed too early) from a map, cache, pending set or job table; a counter or flag not restored on one return path; state recorded for the wrong slot, epoch or key so that a later, unrelated operation finds or misses it."],
 }
-hints=hints_by_round.get(rnd, hints_by_round[9])
+hints=hints_by_round.get(rnd, hints_by_round[10])
 import glob as _glob
 earlier={}
 for _f in sorted(_glob.glob('/verif/seeded/*/meta.json')):
